@@ -8,7 +8,7 @@ until it itself releases" quantify over schedules and are NOT decided by this te
 from __future__ import annotations
 
 from ..embedded_cxx import selector_rules
-from ..links import split_statements, find_member_calls, tok_text, toks_text
+from ..links import split_statements, find_member_calls, tok_text, toks_text, selection_alias
 from .wiring import build_wiring
 from .c01 import all_links
 
@@ -49,12 +49,19 @@ def check(ctx):
             reset_between = acq is not None and call is not None and any(
                 any(tok_text(t) in ('reset', 'release') for t in st) for st in stmts[acq + 1:call])
             same_block = acq is not None and call is not None and acq < call
-            ok = same_block and not reset_between
+            al = selection_alias(stmts)
+            held = al is not None and al[1] == 'holder'
+            ok = same_block and not reset_between and held
+            why = ('the selection lock is released (or not yet taken) when the out-event is delivered: the selection can '
+                   'change concurrently')
+            if same_block and not reset_between and not held:
+                why = ('the lock-and-data object returned by CurrentClient() is not kept in a variable of the lambda (it is '
+                       'dereferenced as a temporary): the lock is released at the end of that declaration, the selection is read '
+                       'and the out-event delivered without it') if al is not None else \
+                    'the lambda does not keep the result of CurrentClient() in a local for the duration of the delivery'
             run.add('C11.deliver-under-lock', 'dznpy.adv_shell.core.processing', 'reroute_multiclient_out_events',
                     toks_text(ln.closure.body)[:100], ok,
-                    'the out-event is delivered while the selection lock is held' if ok else
-                    'the selection lock is released (or not yet taken) when the out-event is delivered: the selection can '
-                    'change concurrently')
+                    'the out-event is delivered while the selection lock is held' if ok else why)
     if n == 0:
         run.error('C11.deliver-under-lock', 'dznpy.adv_shell.core.processing', '-', 'out-event link', 'multi-client out-event link not found')
     # two-step remark (reported, not judged)
